@@ -220,6 +220,57 @@ func c01Tx(r *core.Run, u *undoWorld, prop string) {
 	}
 	for _, fn := range u.undoFns {
 		r.Fn(fn)
+		// the transaction is begun on the very connection the undo statements run on: a transaction begun on the
+		// pool (another connection) leaves the statements in autocommit — the row locks of the validation read are
+		// released before the restore, and nothing is rolled back when a later statement fails
+		{
+			info := fn.Pkg.TypesInfo
+			var beginOn, stmtsOn []string
+			var beginPos token.Pos
+			ast.Inspect(fn.Decl.Body, func(n ast.Node) bool {
+				c, ok := n.(*ast.CallExpr)
+				if !ok {
+					return true
+				}
+				callee := core.Callee(info, c)
+				sel, _ := ast.Unparen(c.Fun).(*ast.SelectorExpr)
+				switch {
+				case isBeginTx(callee) && sel != nil:
+					beginOn = append(beginOn, core.ExprString(sel.X))
+					beginPos = c.Pos()
+				case sel != nil && callee != nil && callee.Pkg() != nil && callee.Pkg().Path() == pSQL && (strings.HasPrefix(callee.Name(), "Prepare") || strings.HasPrefix(callee.Name(), "Query") || strings.HasPrefix(callee.Name(), "Exec")):
+					if rn := core.RecvNamed(callee); rn != nil && inSet(rn.Obj().Name(), "Conn", "DB", "Tx") {
+						stmtsOn = append(stmtsOn, core.ExprString(sel.X))
+					}
+				case isIfaceOrImpl(w, callee, "pkg/datasource/sql/undo", "UndoExecutor", "ExecuteOn"):
+					for _, a := range c.Args {
+						if t := info.TypeOf(a); t != nil && (t.String() == "*database/sql.Conn" || t.String() == "*database/sql.Tx") {
+							stmtsOn = append(stmtsOn, core.ExprString(a))
+						}
+					}
+				}
+				return true
+			})
+			same := len(beginOn) == 1 && len(stmtsOn) > 0
+			txVar := ""
+			ast.Inspect(fn.Decl.Body, func(n ast.Node) bool {
+				if as, ok := n.(*ast.AssignStmt); ok && len(as.Rhs) == 1 && len(as.Lhs) >= 1 {
+					if c, ok := ast.Unparen(as.Rhs[0]).(*ast.CallExpr); ok && isBeginTx(core.Callee(info, c)) {
+						txVar = core.ExprString(as.Lhs[0])
+					}
+				}
+				return true
+			})
+			for _, sOn := range stmtsOn {
+				if len(beginOn) != 1 || (sOn != beginOn[0] && sOn != txVar) {
+					same = false
+				}
+			}
+			r.Sites++
+			r.Check(same, prop+".tx", core.ShortKey(fn.Obj)+" : the undo statements run on the connection the transaction was begun on", w.Pos(beginPos),
+				"begun on "+strings.Join(beginOn, ",")+", statements on "+strings.Join(uniq(stmtsOn), ","),
+				"the transaction is begun on ["+strings.Join(beginOn, ",")+"] but the undo statements run on ["+strings.Join(uniq(stmtsOn), ",")+"]: they execute in autocommit on another connection, so the lock taken by the validation read is gone before the restore (a foreign write in between is overwritten) and a failing later statement leaves the earlier restores committed")
+		}
 		sp := &flow.Spec{W: w, Depth: 2, Classify: func(pkg *packages.Package, call *ast.CallExpr, callee *types.Func) []flow.Tag {
 			if t := txTags(pkg, call, callee); t != nil {
 				return t
